@@ -179,13 +179,15 @@ def make_base(spec, mixins=()):
             p = self._spec.get("probabilities")
             return float(Fraction(p[m])) if p else 1.0 / self.ensemble_size
 
-        def parameters(self, m):
+        def parameters(self, ensemble_member):
+            m = ensemble_member
             d = AliasDict(self.alias_relation)
             for k, v in self._spec.get("param_values", [{}] * self.ensemble_size)[m].items():
                 d[k] = float(Fraction(v))
             return d
 
-        def constant_inputs(self, m):
+        def constant_inputs(self, ensemble_member):
+            m = ensemble_member
             d = AliasDict(self.alias_relation)
             for k, v in self._spec.get("constant_input_values", [{}] * self.ensemble_size)[m].items():
                 ts = v["times"] if isinstance(v, dict) else self._spec["times"]
@@ -202,7 +204,8 @@ def make_base(spec, mixins=()):
                 d[k] = (conv_bound(lo, Timeseries), conv_bound(hi, Timeseries))
             return d
 
-        def history(self, m):
+        def history(self, ensemble_member):
+            m = ensemble_member
             d = AliasDict(self.alias_relation)
             for k, v in self._spec.get("history", [{}] * self.ensemble_size)[m].items():
                 d[k] = Timeseries(np.array([fl(x) for x in v["times"]]),
